@@ -43,7 +43,7 @@ CLAIMED["C17"] = ("25 theorems on the price-discovery model: phase = documented 
     "Coq invariants + characterisation theorems + correspondence")
 CLAIMED["C08"] = ("Refinement invariant proved for every history of the composed model (energy factory + token-unstake + lkmex-transfer + locked-token-wrapper): each account's lazily updated energy entry "
     "equals sum balance*(unlock-now) over the locked tokens it holds (signed), its total equals sum balance, escrows carry no energy and are backed; every new token unlocks strictly in the future. "
-    "Tied to the real contracts by differential replay; monitors recompute both sums from real balances and attributes.", "7 C08", "Coq refinement invariant by induction over operations + correspondence")
+    "Extension (Props/C08_proxy.v, 8 theorems, closed proxy_dex composition): tokens at work through proxy_dex - outside the operation list of the property text - are attributed by caller (signed carried ledger): the depositor keeps their energy, a wrapped token changing hands moves no energy, the account whose call burns them is debited exactly amt*(unlock-now) incl. the refund for expired locks. Tied to the real contracts by differential replay; monitors recompute both sums from real balances and attributes.", "17 C08", "Coq refinement invariant by induction over operations + correspondence")
 CLAIMED["C18"] = ("22 theorems on the governance-v2 model: status = documented function with rational thresholds (integer forms proved equivalent), None iff unused/cancelled; one vote per address per proposal, only while Active, "
     "power = isqrt(energy) (specified and proved), quorum weight = energy, tallies = sums over distinct ballots; fee escrow: leaves at most once, exact refund/burn split, contract balance = sum of un-withdrawn fees. "
     "Tied to governance-v2 + energy mock + fees collector by differential replay with boundary-aligned vote multisets.", "7 C18", "Coq invariants + characterisation theorems + correspondence")
@@ -75,11 +75,11 @@ CLAIMED["C19"] = ("59 theorems: 27 on the behavioural on-behalf models (Props/C1
     "fund-moving rows disallowed when inactive or paused (pair bootstrap exception), partial-active = liquidity only; inventory covered, #[only_owner] attributes agree; for all inputs: require_any_of rule, no escalation and powerless callers over every permissions/hub history, on-behalf rule = hub view, revocation/blacklist stick, rewards to the original owner; "
     "on Model.Pair / Model.Farm for all states and arguments: inactive => no user-funds operation. Tied by executing the complete endpoint x role x state matrix on the real contracts (state restored between cells) and comparing every verdict; failing calls must not change state.",
     "59 C19", "Coq finite decision table proved exhaustively + for-all-input guard/state-machine theorems + full matrix correspondence")
-CLAIMED["C16"] = ("52 theorems on the proxy_dex model (pair, farms and energy factory are environment answers; the interface laws are boolean predicates evaluated where each answer is consumed, checked on every real answer, and each proved on the callee model - Model/Pair, Model/FarmLocked, Model/Energy/Penalty - with closed compositions C16_closed_*): "
+CLAIMED["C16"] = ("75 theorems: 23 on the CLOSED composition proxy_dex x pair x two locked farms x energy factory (Props/C16_closed.v: every closed step is a lawful ProxyDex step - the laws are discharged, not assumed - so backing / locked-stays-locked / mint-burn / energy theorems hold with no law hypothesis; cross-contract links: proxy LP = LP the pair model holds for it, proxy farm tokens = positions the farm models hold for it; pool and farm round trips conserve base+locked supply incl. the callee state) and 52 theorems on the proxy_dex model (pair, farms and energy factory are environment answers; the interface laws are boolean predicates evaluated where each answer is consumed, checked on every real answer, and each proved on the callee model - Model/Pair, Model/FarmLocked, Model/Energy/Penalty - with closed compositions C16_closed_*): "
     "Backed invariant for every lawful history and all positions at once (LP held >= user-held wrapped LP; farm tokens per nonce >= outstanding wrapped-farm supply; locked tokens per nonce >= sum of floor shares + wrapped-farm supply); "
     "remove returns locked tokens of the recorded nonce = min(received, part), base asset only as pool surplus, burns base + locked = part; exit with/without penalty for both farming-token kinds; base asset never paid except that surplus; merge; "
     "base minted on entry = base + locked burned on exit; energy drops by exactly burned*(unlock - now) incl. expired locks; into_part = floor share, aborts on zero, parts never sum past the whole. "
-    "Tied to the real pair + two farm-with-locked-rewards + energy factory + proxy_dex by differential replay.", "52 C16",
+    "Tied to the real pair + two farm-with-locked-rewards + energy factory + proxy_dex by differential replay.", "75 C16",
     "Coq inductive invariant + characterisation theorems relative to stated callee laws + correspondence")
 CLAIMED["C11"] = ("66 theorems: 26 on the boosted-yields model (farm-boosted-yields on top of the generic weekly-rewards-splitting model; farm-level facts - emission, supply, user position, energy entry - are operation inputs read from the real farm): "
     "invariant with ghost ledger for every reachable state; per processed week the payment is exactly min(maxF*R*f/F, (R*cE*e/E + R*cF*f/F)/(cE+cF)) with floor divisions and cross-multiplied bounds against the rational formula, 0 below the minimums / with E, F or R = 0; "
